@@ -79,11 +79,12 @@ def run(ctx, sim_cls, ops, init_strategy, n_examples, max_steps, seed):
     for name in ops:
         setattr(Machine, "op_" + name.replace("-", "_"), mk(name))
 
-    for _round in range(core.MAX_BUCKETS):
+    for _round in range(3):
         state.clear()
         M = hypothesis.seed(seed)(Machine)
+        # only the first failing history of a shard is shrunk (stateful shrinking may take minutes)
         sett = settings(max_examples=n_examples, stateful_step_count=max_steps, deadline=None, database=None,
-                        report_multiple_bugs=False, print_blob=False, phases=[Phase.generate, Phase.shrink],
+                        report_multiple_bugs=False, print_blob=False, phases=[Phase.generate, Phase.shrink] if _round == 0 else [Phase.generate],
                         suppress_health_check=list(HealthCheck))
         try:
             with contextlib.redirect_stdout(core._SINK):
